@@ -63,21 +63,37 @@ def poly_text(p, gens_text, X=None, pwname='pw'):
 def gen_polyeval(kv, stmts, tail, d):
     """Hints for a straight-line float kernel that is polynomial in one designated argument.
 
-    kv: x=<place of the argument>  [xreal=<verus real text for its value>]  [final=0|1]
-        [atoms=a,b,c: let-names to be treated as opaque atoms]
-    Every `let` is read as a one-step real equation (checked from the float-model axioms) and
-    re-asserted in normal form  sum_k coef_k * pw(X,k)  (checked by nonlinear_arith from the
-    one-step equation, the operands' normal forms and the needed pw(X,j)*pw(X,k)==pw(X,j+k)).
+    kv: x=<place of the argument> [atoms=a,b: let-names treated as opaque] [skip=n] [tailname=__r]
+        [calls=path..f:spec_fn]
+    Every `let` (and every nested product inside it) is re-asserted in the normal form
+        sum_k coef_k * pw(X,k)
+    through tiny steps: per-monomial product facts (a_i*b_j == m_ij from pw(X,i)*pw(X,j)==pw(X,i+j)),
+    one product expansion per multiplication, then linear arithmetic.
     """
     sympy = _sym()
     xplace = kv.get('x', 'x')
+    tailname = kv.get('tailname', '__r')
+    exprs.CALLMAP = {}
+    for p in kv.get('calls', '').split(','):
+        if p:
+            k_, v_ = p.rsplit(':', 1)
+            exprs.CALLMAP[k_.replace('..', '::')] = v_
     opaque = set(kv.get('atoms', '').split(',')) - {''}
     lets = []
+    skip = int(kv.get('skip', 0))
     for s in stmts:
         if not s.strip():
             continue
+        if skip > 0:
+            skip -= 1
+            continue
         m = exprs.LET.match(s)
         if not m:
+            if re.match(r'^\s*const\s', s):
+                mm = re.match(r'^\s*const\s+(\w+)\s*:\s*f64\s*=\s*(.+)$', s.strip(), re.S)
+                if mm:
+                    lets.append((mm.group(1), exprs.parse_expr(mm.group(2))))
+                    continue
             raise HintError(f'statement is not a let: {s[:50]!r}')
         name = m.group('pat').strip()
         try:
@@ -90,13 +106,12 @@ def gen_polyeval(kv, stmts, tail, d):
                 raise
             lets.append((name, None))  # opaque atom
     if tail:
-        lets.append(('__r', exprs.parse_expr(tail)))
+        lets.append((tailname, exprs.parse_expr(tail)))
     X = sympy.Symbol('X')
-    symtab = {}      # place -> sympy expr (for lets) or Symbol (atoms)
+    symtab = {}      # place -> sympy expr
     atom_text = {}   # Symbol -> verus text
     nf = {}          # let name -> normal form text
     counter = [0]
-
     alias = {}
 
     def resolve(place):
@@ -114,7 +129,7 @@ def gen_polyeval(kv, stmts, tail, d):
         counter[0] += 1
         s_ = sympy.Symbol(f'a{counter[0]}')
         symtab[place] = s_
-        atom_text[s_] = f'rv({place})'
+        atom_text[s_] = place[len('@call:'):] if place.startswith('@call:') else f'rv({place})'
         return s_
 
     out = []
@@ -130,41 +145,87 @@ def gen_polyeval(kv, stmts, tail, d):
         pw_done.add((j, k))
         out.append(f'        lemma_pw_mul(X, {j}nat, {k}nat);')
 
-    def operand_places(ast, acc):
-        k = ast[0]
-        if k == 'place':
-            acc.append(resolve(exprs.canon_place(ast[1])))
-        elif k in ('paren', 'neg'):
-            operand_places(ast[1], acc)
-        elif k == 'bin':
-            operand_places(ast[2], acc)
-            operand_places(ast[3], acc)
-        elif k == 'call':
-            operand_places(ast[2], acc)
-            for a in ast[3]:
-                operand_places(a, acc)
-
-    def mul_pairs(ast):
-        """degree sets of the two factors of every product in ast (to know which pw facts are needed)"""
-        k = ast[0]
+    def terms(e):
+        """list of (degree in X, sympy coefficient-monomial expr) for the expanded polynomial e"""
+        gens = [g for g in atom_text.keys()]
+        P = sympy.Poly(sympy.expand(e), X, *gens) if gens else sympy.Poly(sympy.expand(e), X)
         res = []
-        if k in ('paren', 'neg'):
-            res += mul_pairs(ast[1])
-        elif k == 'bin':
-            res += mul_pairs(ast[2]) + mul_pairs(ast[3])
-            if ast[1] == '*':
-                res.append((ast[2], ast[3]))
-        elif k == 'call':
-            res += mul_pairs(ast[2])
-            for a in ast[3]:
-                res += mul_pairs(a)
-            if ast[1] == 'mul_add':
-                res.append((ast[2], ast[3][0]))
+        for mon, coef in P.terms():
+            if coef == 0:
+                continue
+            deg = mon[0]
+            rest = sympy.Rational(coef)
+            for g, ex in zip(gens, mon[1:]):
+                rest = rest * g ** ex
+            res.append((deg, rest))
         return res
 
-    def degs(e):
-        P = sympy.Poly(sympy.expand(e), X)
-        return [m[0] for m, c in P.terms() if c != 0]
+    def mono_text(deg, rest):
+        return poly_text(rest * X ** deg, atom_text, X)
+
+    def nf_text(e):
+        return poly_text(e, atom_text, X)
+
+    def rtext(ast):
+        return exprs.to_real(ast, resolve=resolve)
+
+    def product(a_ast, b_ast):
+        """emit the facts needed to expand rtext(a)*rtext(b); returns the sympy product"""
+        ea = sympy.expand(exprs.to_sympy(a_ast, sym))
+        eb = sympy.expand(exprs.to_sympy(b_ast, sym))
+        ta, tb = terms(ea), terms(eb)
+        if not ta or not tb:
+            return sympy.Integer(0)
+        facts = []
+        for (da, ra) in ta:
+            for (db, rb) in tb:
+                lhs = f'({mono_text(da, ra)}) * ({mono_text(db, rb)})'
+                rhs = mono_text(da + db, sympy.expand(ra * rb))
+                req = ['pw(X, 1nat) == X', 'pw(X, 0nat) == 1real']
+                if da >= 1 and db >= 1:
+                    need_pw(da, db)
+                    lo, hi = min(da, db), max(da, db)
+                    req.append(f'pw(X, {lo}nat) * pw(X, {hi}nat) == pw(X, {da + db}nat)')
+                out.append(f'        assert({lhs} == {rhs}) by(nonlinear_arith)\n            requires ' + ', '.join(req) + ';')
+                facts.append(f'{lhs} == {rhs}')
+        A, B = rtext(a_ast), rtext(b_ast)
+        prod = sympy.expand(ea * eb)
+        out.append(f'        assert(({A}) * ({B}) == {nf_text(prod)}) by(nonlinear_arith)\n            requires '
+                   + f'({A}) == {nf_text(ea)}, ({B}) == {nf_text(eb)},\n                     '
+                   + ',\n                     '.join(facts) + ';')
+        return prod
+
+    def walk(ast):
+        """post-order: make every multiplication inside ast known in normal form"""
+        k = ast[0]
+        if k in ('paren', 'neg'):
+            walk(ast[1])
+        elif k == 'bin':
+            walk(ast[2])
+            walk(ast[3])
+            if ast[1] == '*':
+                settle(ast[2]); settle(ast[3])
+                product(ast[2], ast[3])
+        elif k == 'call':
+            walk(ast[2])
+            for a in ast[3]:
+                walk(a)
+            if ast[1] == 'mul_add':
+                settle(ast[2]); settle(ast[3][0])
+                product(ast[2], ast[3][0])
+
+    def settle(ast):
+        """assert rtext(ast) == NF(ast) in the outer context (linear once inner products are expanded)"""
+        a = exprs.strip_paren(ast)
+        if a[0] in ('num',):
+            return
+        if a[0] == 'place':
+            p = resolve(exprs.canon_place(a[1]))
+            if p == xplace:
+                out.append(f'        assert(rv({p}) == pw(X, 1nat));')
+            return
+        e = sympy.expand(exprs.to_sympy(ast, sym))
+        out.append(f'        assert({rtext(ast)} == {nf_text(e)});')
 
     for name, ast in lets:
         if ast is None:
@@ -174,39 +235,21 @@ def gen_polyeval(kv, stmts, tail, d):
             alias[name] = resolve(exprs.canon_place(exprs.strip_paren(ast)[1]))
             continue
         e = sympy.expand(exprs.to_sympy(ast, sym))
-        if e.free_symbols and not sympy.Poly(e, X).is_zero and any(
-                not t.is_polynomial(X) for t in [e]):
+        if not e.is_polynomial(X):
             raise HintError(f'{name} is not polynomial in {xplace}')
-        onestep = exprs.to_real(ast, resolve=resolve)
-        ops = []
-        operand_places(ast, ops)
-        reqs = [f'rv({name}) == {onestep}']
-        for p in dict.fromkeys(ops):
-            if p == xplace:
-                continue
-            if p in nf:
-                reqs.append(f'rv({p}) == {nf[p]}')
-        for a, b in mul_pairs(ast):
-            da = degs(exprs.to_sympy(a, sym))
-            db = degs(exprs.to_sympy(b, sym))
-            for i in da:
-                for j in db:
-                    if i >= 1 and j >= 1:
-                        need_pw(i, j)
-                        lo, hi = min(i, j), max(i, j)
-                        reqs.append(f'pw(X, {lo}nat) * pw(X, {hi}nat) == pw(X, {i + j}nat)')
-        reqs.append('pw(X, 1nat) == X')
-        reqs.append(f'X == rv({xplace})')
-        reqs = list(dict.fromkeys(reqs))
-        nf_text = poly_text(e, atom_text, X)
-        nf[name] = nf_text
-        symtab[name] = e
+        onestep = rtext(ast)
         out.append(f'        assert(rv({name}) == {onestep});')
-        out.append(f'        assert(rv({name}) == {nf_text}) by(nonlinear_arith)\n            requires '
-                   + ',\n                     '.join(reqs) + ';')
+        walk(ast)
+        nf_t = nf_text(e)
+        nf[name] = nf_t
+        out.append(f'        assert(rv({name}) == {nf_t});')
+        symtab[name] = e
+    global LAST_NF
+    LAST_NF = nf.get(tailname)
     return '\n'.join(out) + '\n'
 
 
+LAST_NF = None
 GENERATORS = {'polyeval': gen_polyeval}
 
 
